@@ -98,6 +98,9 @@ def corpus():
     cases.append({"kind": "mw", "fields": [["author", {"names": ["Aa Bb", "cc Dd, Ee"]}], ["title", {"s": "T"}],
                                           ["editor", {"names": ["X,"]}], ["translator", {"names": ["Yy Zz"]}]],
                   "groups": [["splitParts"], ["mergePartsLast"]], "inplace": True})
+    for names in ("Knuth, Donald E., and Lamport, Leslie", "de la Fontaine, Jean,", "A, and B", "A and B,", "A ,and B", "A, B and C, D, E, and F"):
+        for ip in (True, False):
+            cases.append({"kind": "mw", "fields": [["author", {"s": names}], ["title", {"s": "T"}]], "groups": [["separate", "splitParts"]], "inplace": ip})
     cases.append({"kind": "mw", "fields": [["author", {"s": "A and B"}]], "groups": [["splitParts"]], "inplace": True})
     cases.append({"kind": "mw", "fields": [["author", {"s": "A and B"}]], "groups": [["separate", "splitParts"], ["mergePartsFirst"]], "inplace": False})
     return cases
@@ -386,6 +389,25 @@ def _oracle_mw(case):
     from bibtexparser import model as M
     from bibtexparser.library import Library
     from bibtexparser.middlewares.names import parse_single_name_into_parts as parse, InvalidNameError, SplitNameParts
+    if case["groups"][0][:2] == ["separate", "splitParts"]:
+        # a co-author string is separated first: the names are the pieces between top-level ' and ' (reference splitter, not
+        # the real one); one invalid piece (e.g. a trailing comma in front of ' and ') makes the entry an error block
+        from bibtexparser.middlewares.names import SeparateCoAuthors
+        vals0 = [U.dec_value(v) for _k, v in case["fields"]]
+        strs = [v for (k, _), v in zip(case["fields"], vals0) if k in ("author", "editor", "translator")]
+        if not strs or not all(isinstance(v, str) and U.no_unmatched_close(v) for v in strs):
+            return None
+        entry = U.make_entry(case["fields"])
+        try:
+            lib = SeparateCoAuthors(allow_inplace_modification=True).transform(Library([entry]))
+            (blk,) = SplitNameParts(allow_inplace_modification=case.get("inplace", True)).transform(lib).blocks
+        except Exception as e:  # noqa
+            return "SeparateCoAuthors + SplitNameParts raised %s" % type(e).__name__
+        invalid = any(U.sections_spec(n) is None for v in strs for n in U.ref_split(v))
+        if invalid != isinstance(blk, M.MiddlewareErrorBlock):
+            return ("co-author strings %r: the names %r are %s, but the result is %s" % (
+                strs, [U.ref_split(v) for v in strs], "not all valid" if invalid else "all valid", type(blk).__name__))
+        return None
     if case["groups"][0][:1] != ["splitParts"]:
         return None
     vals = [U.dec_value(v) for _k, v in case["fields"]]
